@@ -23,7 +23,8 @@ PID = "C10"
 LEVEL = "fault_enumeration"
 RULE = ("cases: (a) enumeration of 10 errors x {send, recv, handshake} x 4 endpoint classes x 2 positions (complete); (b) "
         "generated schedules: 2-4 connections on one tcp.Server, per-step client payloads, faults = (connection, send|recv, "
-        "error, call index). non-trivial = a fault hits a connection while a sibling connection still has traffic pending; "
+        "error, call index) and peer resets (abortive close with or without bytes still queued: recv delivers them, then "
+        "ECONNRESET, send gives EPIPE, getpeername ENOTCONN), with or without a wire log on the server. non-trivial = a fault hits a connection while a sibling connection still has traffic pending; "
         "distinct = canonical hash of the case")
 ASSUMPTIONS = ["errors are injected by the harness' in-memory sockets with the same exception types and errno values the "
                "kernel / ssl module raise (OSError(errno), ssl.SSLEOFError(SSL_ERROR_EOF))",
@@ -84,7 +85,12 @@ def run_matrix(case, r):
 
 
 def run_schedule(case, r):
-    srv = fakenet.FakeServant(bs=32)
+    wl = None
+    if case.get("wl"):
+        from hio.core import wiring
+        wl = wiring.WireLog(samed=False, filed=False, fmt=b"%(data)b", name="c10")
+        wl.reopen()
+    srv = fakenet.FakeServant(bs=32, wl=wl)
     n = case["n"]
     clients = [srv.connect(41000 + i) for i in range(n)]
     srv.service()
@@ -127,11 +133,19 @@ def run_schedule(case, r):
                 pass
         return True
 
+    resets = {f["conn"] % n: f["index"] for f in case.get("resets", [])}
     for stepno, pays in enumerate(case["steps"]):
         for j, p in enumerate(pays[:n]):
-            if p:
+            if p and not getattr(ssocks[j], "rst", False):
                 clients[j].send(p)
                 sent[j] += p
+        for j, at in resets.items():
+            if at == stepno and j in ssocks and not getattr(ssocks[j], "rst", False):
+                # the peer resets the connection right after queueing its bytes: recv still returns them, then ECONNRESET
+                ssocks[j].reset_by_peer()
+                clients[j].close()
+                hit.add(j)
+                r.labels.append("peer-reset-with-queued-data" if ssocks[j].inbuf else "peer-reset")
         before = {j: ssocks[j].calls[:] for j in hit}
         if not step():
             return
@@ -190,7 +204,10 @@ def schedule_strategy():
                                    "err": st.sampled_from(fakenet.ERRNOS), "index": st.integers(0, 4)})
     pay = st.one_of(st.just(b""), st.binary(min_size=1, max_size=90))
     return st.fixed_dictionaries({"k": st.just("schedule"), "n": st.integers(2, 4),
-                                  "faults": st.lists(fault, min_size=1, max_size=2, unique_by=lambda f: f["conn"]),
+                                  "faults": st.lists(fault, min_size=0, max_size=2, unique_by=lambda f: f["conn"]),
+                                  "resets": st.lists(st.fixed_dictionaries({"conn": st.integers(0, 3), "index": st.integers(0, 5)}),
+                                                     max_size=2, unique_by=lambda f: f["conn"]),
+                                  "wl": st.booleans(),
                                   "steps": st.lists(st.lists(pay, min_size=4, max_size=4), min_size=2, max_size=8)})
 
 
